@@ -675,6 +675,15 @@ class MemorizedFunc(Logger):
             # Don't do this for lambda functions or strange callable
             # objects, as it ends up being too fragile
             func_hash = self._hash_func()
+            # Other live functions sharing this identifier were validated
+            # against a source code that is no longer the stored one: they
+            # need to be checked again.
+            for other_func in list(_FUNCTION_HASHES):
+                if (
+                    other_func is not self.func
+                    and _build_func_identifier(other_func) == self.func_id
+                ):
+                    _FUNCTION_HASHES.pop(other_func, None)
             try:
                 _FUNCTION_HASHES[self.func] = func_hash
             except TypeError:
